@@ -194,7 +194,12 @@ def _decoder(name, exc="ValueError", also_type=False):
 
 
 def _encoder(name):
-    return SStub(lambda it, a, k: fresh_str(it, name, "bytes"), name)
+    def call(it, a, k):
+        r = fresh_str(it, name, "bytes")
+        it.run.assume(it.all_codes_below(r.e, 128))  # text encoders return ASCII
+        return r
+
+    return SStub(call, name, trusted=f"{name}: returns ASCII bytes")
 
 
 def _int_base(it, args, kwargs):
